@@ -258,6 +258,8 @@ func init() {
 		x.errAxioms()
 		r := x.freshVal(st, "err", errT)
 		st.assume(Not(Eq(r.T, NilIface)))
+		// a newly allocated error value: different from every existing one
+		st.assume(Eq(Term{fmt.Sprintf("(ival %s)", r.T.S), "Int"}, x.freshRef(st)))
 		// %w: the result wraps the corresponding operand
 		format := ""
 		if c, ok := cc.Args[0].(*ssa.Const); ok && c.Value != nil && c.Value.Kind() == constant.String {
